@@ -9,8 +9,9 @@ EXPLANATION = (
     "completion(replace_placeholders(tau_star(P), placeholders), user_guide.input_predicates()) optionally followed by the fixpoint of "
     "[INTUITIONISTIC, HT, CLASSIC], applied to both sides by the same closure; control translation must map a completed definition of a public "
     "predicate to spec/universal, of any other predicate to assumption/universal, a constraint to spec/universal, leaving the formula untouched; "
-    "head_predicate recognises exactly (forall-prefixed) equivalences with an atom on the left. FLOW-ROUTE: the routing loop of "
-    "ValidatedExternalEquivalenceTask::decompose is partially evaluated for every (side, role, direction, break flag) in the finite enum space; "
+    "head_predicate recognises exactly (forall-prefixed) equivalences with an atom on the left. FLOW-ROUTE: "
+    "ValidatedExternalEquivalenceTask::decompose is evaluated, for every (side, role, direction, break flag) of the finite enum space, on a task whose "
+    "side is the singleton list [F] of one formula with that role and direction, and the buckets are read off the assembled task it builds; "
     "the resulting table (bucket, problem role, broken?) must equal the reference table of the manual and the right side must be the mirror image "
     "of the left; equivalences are broken only on conclusions. FLOW-READ/ROUTE: AssembledExternalEquivalenceTask::decompose: per direction the "
     "fields read, the order of the builder chain (stable premises, premises of the direction, lemma consequences, conclusions), direction gates, "
